@@ -38,6 +38,11 @@ type End struct {
 	Tap func(code uint64, payload []byte)
 	// Fixed, if set, replaces ReceivedAt (drivers must not depend on the wall clock).
 	Fixed time.Time
+	// OnRead, if set, is called for every message handed out by ReadMsg, with a private copy of the payload, on the
+	// reader's goroutine, before the message is returned.
+	OnRead func(code uint64, payload []byte)
+	// wmu makes Tap + delivery of one message atomic: the order seen by the tap is the order on the wire.
+	wmu sync.Mutex
 }
 
 // New returns the two connected ends. Each direction buffers up to 256 messages.
@@ -65,15 +70,25 @@ func (e *End) ReadMsg() (p2p.Msg, error) {
 	// what was written before the pipe was closed is still delivered (as data precedes FIN on a socket)
 	select {
 	case m := <-e.in:
-		return m, nil
+		return e.observe(m), nil
 	default:
 	}
 	select {
 	case m := <-e.in:
-		return m, nil
+		return e.observe(m), nil
 	case <-e.sh.closed:
 		return p2p.Msg{}, io.EOF
 	}
+}
+
+func (e *End) observe(m p2p.Msg) p2p.Msg {
+	if e.OnRead == nil {
+		return m
+	}
+	data, _ := io.ReadAll(m.Payload)
+	e.OnRead(m.Code, append([]byte(nil), data...))
+	m.Payload = bytes.NewReader(data)
+	return m
 }
 
 // WriteMsg implements p2p.MsgWriter: the payload is consumed and delivered as a bytes.Reader.
@@ -90,6 +105,8 @@ func (e *End) Inject(code uint64, size uint32, payload []byte) error {
 	if e.Closed() {
 		return ErrClosed
 	}
+	e.wmu.Lock()
+	defer e.wmu.Unlock()
 	if e.Tap != nil {
 		e.Tap(code, append([]byte(nil), payload...))
 	}
